@@ -373,7 +373,7 @@ PROPS = {
         "namespace": "NutsModel.C05",
         "theorems": ["all_kinds", "leap_classification", "good_is_ok", "unrecoverable_is_err", "trajectory_fault_diverges",
                      "trajectory_zero_grad_fine", "trial_fault_discarded", "bad_initial_point_rejected", "init_untransformed_rejects",
-                     "set_position_outcomes", "nonfatal_fault_never_fails_partial", "reinit_fault_is_err",
+                     "set_position_outcomes", "nonfatal_fault_never_fails", "nonfatal_fault_never_fails_partial", "reinit_fault_discarded",
                      "Tree.draw_fault_spec", "Tree.fault_stops_trajectory", "Tree.divergence_reported", "Tree.divergence_genuine",
                      "Tree.unrecoverable_is_err", "Tree.no_fault_no_report", "Tree.returned_state_valid",
                      "leap_ok_iff", "leap_err_iff", "leap_diverge_iff", "unrecoverable_in_trajectory_is_err",
